@@ -1347,8 +1347,8 @@ fn explain(out: &mut Out, spec: &Spec, rows: &[Row], is_max: bool, obj: usize, r
 }
 
 /// the run is feasible and misses the exact optimum by no more than what an equality row that ties
-/// the objective to other float variables amplifies their grid rounding to:
-/// Σ_{j ≠ obj} |a_j| · 1.5·step / |a_obj|  (on top of the tolerance of (b)).  `FloatLinEq` holds
+/// the objective to other float variables amplifies THEIR tolerance of (a) to:
+/// Σ_{j ≠ obj} |a_j| · (max(3·step, 1e-5·|x_j|) + 1.5·step) / |a_obj|  (on top of the tolerance of (b)).  `FloatLinEq` holds
 /// (nearly) exactly on the step grid, so the optimum between two grid solutions is not reached.
 fn eq_grid_gap(out: &mut Out, spec: &Spec, rows: &[Row], ex: Option<&Exact>, is_max: bool, obj: usize, run: &Run) -> bool {
     let fails = judge(out, true, spec, rows, ex, is_max, obj, run);
@@ -1360,9 +1360,13 @@ fn eq_grid_gap(out: &mut Out, spec: &Spec, rows: &[Row], ex: Option<&Exact>, is_
     let mut amp = 0.0;
     for r in rows.iter().filter(|r| r.rel == Rel::Eq) {
         let a_obj: f64 = r.a.iter().filter(|(_, x)| *x == obj).map(|(c, _)| *c).sum();
-        let others: f64 = r.a.iter().filter(|(_, x)| *x != obj && spec.is_float(*x)).map(|(c, _)| c.abs()).sum();
+        // every other float variable of the row is only known up to the tolerance of (a)
+        let others: f64 = r.a.iter().filter(|(_, x)| *x != obj && spec.is_float(*x)).map(|(c, x)| {
+            let vx = match sol[vid(*x)] { Val::ValF(f) => f, Val::ValI(k) => k as f64 };
+            c.abs() * tolx(step, vx)
+        }).sum();
         if a_obj != 0.0 && others > 0.0 {
-            amp += others * 1.5 * step / a_obj.abs();
+            amp += others / a_obj.abs();
         }
     }
     if amp == 0.0 {
@@ -1615,6 +1619,18 @@ fn gen_spec(r: &mut Rng, out: &mut Out, for_oracle: bool) -> Spec {
                 };
                 posts.push(p);
             }
+        }
+    }
+    {
+        // `x == y` between two integer variables narrows both domains at posting time
+        // (`apply_var_eq_bounds`): posted first, last or in between
+        let ints: Vec<usize> = (0..nv).filter(|x| !is_f(*x)).collect();
+        if ints.len() >= 2 && r.chance(1, 2) {
+            let x = *r.pick(&ints);
+            let y = *r.pick(&ints);
+            let at = r.below(posts.len() as u64 + 1) as usize;
+            posts.insert(at, SPost::FluentVV(Rel::Eq, x, y));
+            out.stat("gen.int-int-eq");
         }
     }
     if !for_oracle && r.chance(1, 25) {
